@@ -501,10 +501,14 @@ class BaseOrchestrator(ABC):
         #     it should try to finish all the calls in this function
 
         # TODO store Retry exception on Retry status
+        # Count the retry before RETRY becomes visible: an invocation that another task is
+        # waiting for is offered to runners by its status (blocking list), not only through
+        # the queue, so a runner can start it as soon as the status is published and must
+        # already see the updated count (otherwise it is granted one retry too many).
+        self.app.orchestrator.increment_invocation_retries(invocation_id)
         self.app.orchestrator.set_invocation_status(
             invocation_id, InvocationStatus.RETRY, runner_ctx
         )
-        self.app.orchestrator.increment_invocation_retries(invocation_id)
         self.app.broker.route_invocation(invocation_id)
 
     def is_candidate_to_run_by_concurrency_control(
